@@ -143,6 +143,7 @@ fn walk(nodes: &[Node], dt: &mut DrawTarget, cx: &mut Context, model_clip: &mut 
                 o.class_if(ob == 0, "opacity-zero");
                 o.class_if(*blend != SRC_OVER, "layer-blend-non-srcover");
                 o.class_if(wk.depth >= 1, "nested-layer");
+                o.class_if(h > 1024 || w > 1024, "layer-on-a-surface-beyond-1024");
                 o.class_if(origin_nonzero, "layer-origin-nonzero");
                 o.class_if(has_clear, "clear-inside-layer");
                 o.class_if(!cx.clips.is_empty(), "layer-under-clip");
@@ -181,7 +182,7 @@ pub fn check(c: &Case) -> CheckResult {
 
 pub fn strategy(ctx: &Ctx) -> BoxedStrategy<Case> {
     let ctx = ctx.clone();
-    prop_oneof![24 => (2i32..=10, 2i32..=10), 1 => (257i32..=300, 2i32..=3), 1 => (2i32..=3, 257i32..=300)]
+    prop_oneof![48 => (2i32..=10, 2i32..=10), 2 => (257i32..=300, 2i32..=3), 2 => (2i32..=3, 257i32..=300), 1 => prop_oneof![(2i32..=3, prop::sample::select(vec![1024i32, 1025, 1030, 1100, 2049, 2056])), (prop::sample::select(vec![1024i32, 1025, 2049, 2056]), 2i32..=2)]]
         .prop_flat_map(move |(w, h)| {
             let mut d = Domain::exact(w, h);
             d.layers = true;
